@@ -207,26 +207,21 @@ def run_check(mod, case):
 
 def clone_point(obj, case):
     """A point in a case's history where the caller might just as well go on with a copy of a library object: under the
-    case key "_clone" ("deepcopy" | "copy" | "pickle") the object is replaced by copy.deepcopy(obj), copy.copy(obj) or
-    a pickle round trip of it.  An object that can not be copied that way (closures do not pickle) is used as it is:
-    only the behaviour of a copy that was made is judged."""
+    case key "_clone" the object is replaced by copy.copy(obj).  Only the *shallow* copy is used: it goes through the
+    object's own copy / pickle protocol (__copy__, __reduce_ex__, __getstate__ / __setstate__) but keeps every
+    attribute value as the same object, so that implementations relying on identity-compared private sentinels are not
+    penalised (a deep copy or a pickle round trip would clone such a sentinel; the properties say nothing about that).
+    An object that can not be copied is used as it is."""
     mode = case.get("_clone") if isinstance(case, dict) else None
     if not mode:
         return obj
     import copy
-    import pickle
     try:
-        if mode == "deepcopy":
-            return copy.deepcopy(obj)
-        if mode == "copy":
-            return copy.copy(obj)
-        if mode == "pickle":
-            return pickle.loads(pickle.dumps(obj))
-    except (Violation,):
+        return copy.copy(obj)
+    except Violation:
         raise
     except Exception:
         return obj
-    return obj
 
 
 NO_WARNINGS_ERROR = [False]  # set from the check module's ENV_EXCLUDE
@@ -244,8 +239,8 @@ def with_env(case, k):
             return {**case, "_env": {"logging_disabled": True}}
         if k == 3 and not NO_WARNINGS_ERROR[0]:
             return {**case, "_env": {"warnings_error": True}}
-        if k in (4, 5, 6) and "_clone" not in case:
-            return {**case, "_clone": {4: "deepcopy", 5: "copy", 6: "pickle"}[k]}
+        if k in (4, 5) and "_clone" not in case:
+            return {**case, "_clone": "copy"}
     return case
 
 
@@ -512,8 +507,8 @@ def main(argv=None):
     ncorpus = sum(len(g) for g in corpus)
     if hasattr(mod, "enumerated"):
         cases = list(mod.enumerated(tier, seed))
-        # members 2, 4, ..., 14 of every fifteen of an enumerated family run under one of the process configurations
-        cases = [with_env(c, {4: 0, 2: 1, 6: 2, 8: 3, 10: 4, 12: 5, 14: 6}.get(i % 15, 99)) for i, c in enumerate(cases)]
+        # members 2, 4, ..., 12 of every thirteen of an enumerated family run under one of the process configurations
+        cases = [with_env(c, {4: 0, 2: 1, 6: 2, 8: 3, 10: 4, 12: 5}.get(i % 13, 99)) for i, c in enumerate(cases)]
         if cases:
             exhaustive = bool(getattr(mod, "EXHAUSTIVE", False))
             per = max(1, min(getattr(mod, "ENUM_CHUNK", 50), (len(cases) + NPROC * 4 - 1) // (NPROC * 4)))
